@@ -7,5 +7,5 @@ repl = sys.argv[5] if len(sys.argv) > 5 else ""
 apis = sys.argv[6] if len(sys.argv) > 6 else "mrta"
 line = tie.case_line(0, d, fl, pat, inp, repl, apis) + "\n"
 c = subprocess.run([tie.HARNESS, "run"], input=line, capture_output=True, text=True).stdout.splitlines()[-1]
-m = subprocess.run([tie.DRIVER, "run"], input=line, capture_output=True, text=True).stdout.strip()
+m = subprocess.run([tie.DRIVER, "run"], input=line, capture_output=True, text=True).stdout.strip().splitlines()[-1]
 print("code :", c); print("model:", m); print("SAME" if c == m else "DIFF")
